@@ -628,6 +628,9 @@ parseParams(const char *request, char *result, int max_bytes)
 	}
 
 	/* Split the request into parameter name and value */
+	if (param_request[0] == '\0') {
+	    return FALSE;
+	}
 	value_str = strchr(&param_request[1], '=');
 	if (value_str == NULL) {
 	    return FALSE;
